@@ -17,6 +17,8 @@ CONSTANTS
   ShardProcs = 3
   ShardFlips = 2
   InPlace = FALSE
+  Big = 0
+  PosWidth = 0
 INVARIANT ReplicaSetConstant
 INVARIANT ShardEachOnce
 INVARIANT ShardHonest
